@@ -23,7 +23,9 @@ def canon_tokens(root, skip_keys=SKIP_KEYS, tnorm=None):
     if tnorm is not None:
         from .common import hrs
 
-        ctx = dict(origin_h=hrs(tnorm[0]), cut_h=Fraction(tnorm[1], 3600))
+        from .common import time_unit_seconds
+
+        ctx = dict(origin_h=hrs(tnorm[0]), cut_h=Fraction(tnorm[1]) / time_unit_seconds())
 
     def w(o):
         if o is None or o is True or o is False:
